@@ -44,6 +44,12 @@ def view_convert(scratch, gaf_text, gfa_path, fmt, tag="x"):
 def records_for(g, L, maxlen, ids=None):
     """all walk records of a layout: every step sequence, every (or boundary) offsets"""
     ids = ids or L.ids()
+    if len(L.ref_lens) > 20:
+        # a contig of many segments: walks over the segments at its ends, around the 9 -> 10 digit boundary, around the
+        # 64th segment, and the haplotype segment (the whole contig is in the graph; only the walks are windowed)
+        nref = len(L.ref_lens)
+        keep = set(range(1, 4)) | set(range(9, 13)) | set(range(62, 67)) | set(range(nref - 2, nref + 1))
+        ids = [x for k, x in enumerate(ids, 1) if k in keep or k > nref]
     n = 0
     exhaustive = L.scale == 1
     for steps in gen.step_sequences(ids, maxlen):
